@@ -1,3 +1,4 @@
+import CKT.Props.C03Fresh
 import CKT.Props.C03Sem
 import CKT.Sem.Instr
 import CKT.Sem.Tie
